@@ -590,6 +590,45 @@ fn depth_probe(ctx: &PCtx, rec: &RefCell<Recorder>) {
                 ctx.report(rec, "proto-depth", &json!({"doc": d.key, "depth": depth}), &f);
                 return;
             }
+            // the same depth through *unknown groups* (field 1000, undeclared): `depth` nested
+            // groups at the top level, and `depth/2` known messages around `depth - depth/2` groups
+            for mixed in [false, true] {
+                let (msgs, groups) = if mixed { (depth / 2, depth - depth / 2) } else { (0, depth) };
+                let mut bytes = vec![];
+                for _ in 0..groups {
+                    put_key(&mut bytes, 1000, 3);
+                }
+                put_key(&mut bytes, 1, 0);
+                bytes.push(1);
+                for _ in 0..groups {
+                    put_key(&mut bytes, 1000, 4);
+                }
+                for _ in 0..msgs {
+                    let mut o = vec![0x1a];
+                    put_varint(&mut o, bytes.len() as u64);
+                    o.extend_from_slice(&bytes);
+                    bytes = o;
+                }
+                {
+                    let mut rr = rec.borrow_mut();
+                    rr.case(fp(&("gdepth", &d.key, depth, mixed)), true, || json!({"doc": d.key, "nesting depth": depth, "unknown groups": groups, "known messages": msgs}));
+                    rr.class("nesting chain through unknown groups");
+                    rr.class_if(depth >= 102, "group nesting chain beyond the limit");
+                }
+                let r = catch(|| (e.ops.decode_only)(&bytes));
+                let fail = match r {
+                    Err(p) => Some(Fail::new("group-depth-panic", format!("{} messages around {} unknown groups panicked: {}", msgs, groups, p))),
+                    // skipping a group enters the recursion once more than a message does: the
+                    // accepted depth may be one lower
+                    Ok(ok) if depth <= 96 && !ok => Some(Fail::new("group-depth-refused-early", format!("{} known messages around {} nested unknown groups (documented limit 100) are rejected", msgs, groups))),
+                    Ok(ok) if depth >= 102 && ok => Some(Fail::new("group-depth-not-refused", format!("{} known messages around {} nested unknown groups are accepted although the documented recursion limit is 100", msgs, groups))),
+                    _ => None,
+                };
+                if let Some(f) = fail {
+                    ctx.report(rec, "proto-depth", &json!({"doc": d.key, "depth": depth, "groups": groups, "messages": msgs}), &f);
+                    return;
+                }
+            }
         }
     }
 }
@@ -599,7 +638,7 @@ pub fn c10(ctx: &PCtx) -> i32 {
     {
         let mut r = rec.borrow_mut();
         r.level = "fault_enumeration";
-        r.rule = "every generated message type x (random bytes | reference encoding of a schema-directed value, optionally with unknown records, with one fault: truncation, bit flip, a length prefix at the first three nesting levels overwritten with 0, 1, rem-1, rem+1, i32::MAX, u32::MAX, u64::MAX, 16Mi); Message::decode and decode_length_delimited under panic capture and a counting allocator (bound 1 MiB + 4096 x input); nesting chains of 1..300 embedded messages: <= 98 accepted, >= 102 rejected; non-trivial = single-fault mutant of a valid encoding".into();
+        r.rule = "every generated message type x (random bytes | reference encoding of a schema-directed value, optionally with unknown records, with one fault: truncation, bit flip, a length prefix at the first three nesting levels overwritten with 0, 1, rem-1, rem+1, i32::MAX, u32::MAX, u64::MAX, 16Mi); Message::decode and decode_length_delimited under panic capture and a counting allocator (bound 1 MiB + 4096 x input); nesting chains of 1..300 embedded messages, of unknown groups, and of messages around unknown groups: <= 96/98 accepted, >= 102 rejected; non-trivial = single-fault mutant of a valid encoding".into();
         r.assumptions = vec!["runtime field codecs are exercised through the generated messages (every scalar kind in every position in the kitchen-sink messages); group decoding is exercised through unknown group records only (pilota-build does not support group fields)".into()];
     }
     let total = |ctx: &PCtx, di: usize, c: &PFaultCase| total_case(ctx, di, c);
